@@ -87,15 +87,15 @@ fn nop_clone_h() {
 
 // ---- K3: bounded cross-checks on real memory --------------------------------------------------
 /// erased insert on a real Stack<16> vector of u32 (capacity 4), copy_bytes NOT replaced
-fn k3_insert_h<T: Copy + PartialEq + kani::Arbitrary + 'static, const SIZE: usize>() {
-    let x: [T; 3] = kani::any();
+fn k3_insert_h<T: Copy + PartialEq + kani::Arbitrary + 'static, const SIZE: usize, const CAP: usize>() {
+    let x: [T; CAP] = kani::any();
     let y: T = kani::any();
     let len: usize = kani::any();
     let index: usize = kani::any();
-    kani::assume(len <= 3 && index <= len);
+    kani::assume(len < CAP && index <= len);
     let mut v: AnyVec<dyn None, Stack<SIZE>> = AnyVec::new::<T>();
-    { let mut t = v.downcast_mut::<T>().unwrap(); let mut i = 0; while i < 3 { if i < len { t.push(x[i]); } i += 1; } }
-    kani::assert(v.capacity() == 4, "Stack<4 x size>: capacity 4");
+    { let mut t = v.downcast_mut::<T>().unwrap(); let mut i = 0; while i < CAP { if i < len { t.push(x[i]); } i += 1; } }
+    kani::assert(v.capacity() == CAP, "Stack<CAP x size>: capacity CAP");
     let mut yv = y;
     let raw = unsafe { AnyValueRaw::new(core::ptr::NonNull::from(&mut yv).cast::<u8>(), size_of::<T>(), core::any::TypeId::of::<T>()) };
     v.insert(index, raw);
@@ -106,7 +106,7 @@ fn k3_insert_h<T: Copy + PartialEq + kani::Arbitrary + 'static, const SIZE: usiz
     let want = if j < index { x[j] } else if j == index { y } else { x[j - 1] };
     kani::assert(got == want, "K3 insert: the vector equals Vec::insert's result (real memory, real copy_bytes)");
     core::mem::forget(v);
-    kani::cover!(index == 0 && len == 3, "COV front of full-1");
+    kani::cover!(index == 0 && len == CAP - 1, "COV front of full-1");
     kani::cover!(true, "REACHED");
 }
 type SV = AnyVec<dyn None, Stack<16>>;
